@@ -41,6 +41,12 @@ def evaluate(sid, run_tests=True, extra_checks=None):
             # /repo has moved on since the change was written (fix: commits): fall back to a 3-way merge of the patch
             a = sh('git -C %s apply --3way %s' % (wt, os.path.join(d, 'patch.diff')))
             res['applied_with_3way'] = a.returncode == 0
+        rb = os.path.join(d, 'patch_rebased.diff')
+        if a.returncode and os.path.exists(rb):
+            # the same change re-written by hand for the current /repo HEAD (a fix: commit touched the same lines); the original stays as patch.diff
+            sh('git -C %s reset --hard -q HEAD' % wt)
+            a = sh('git -C %s apply %s' % (wt, rb))
+            res['applied_rebased'] = a.returncode == 0
         if a.returncode:
             res['error'] = 'patch does not apply: ' + a.stderr[-300:]
             return res
